@@ -248,7 +248,7 @@ unsafe fn drop_cycle<T>(cycle: HashMap<Link<T>, usize>) {
         // deallocate. This allows us to bust the cycle detection by clearing
         // all links.
         let rcbox = ptr.as_ptr();
-        let cycle_strong_refs = {
+        {
             let mut links = (*rcbox).links().borrow_mut();
             links
                 .extract_if(|link, _| {
@@ -258,20 +258,24 @@ unsafe fn drop_cycle<T>(cycle: HashMap<Link<T>, usize>) {
                         false
                     }
                 })
-                .map(|(link, count)| {
-                    if let Kind::Forward = link.kind() {
-                        count
-                    } else {
-                        0
-                    }
-                })
-                .sum::<usize>()
-        };
+                .for_each(drop);
+        }
 
         // To be in a cycle, at least one `value` field in an `RcBox` in the
         // cycle holds a strong reference to `this`. Mark all nodes in the cycle
         // as dead so when we deallocate them via the `value` pointer we don't
         // get a double-free.
+        //
+        // `refcount` is the number of strong references to `this` that are
+        // owned by members of the cycle, i.e. the references that become inert
+        // once the cycle is torn down. This is not the same as the number of
+        // references `this` holds to other members of the cycle. Loopback
+        // links do not log a strong reference.
+        let cycle_strong_refs = if let Kind::Forward = ptr.kind() {
+            refcount
+        } else {
+            0
+        };
         for _ in 0..cycle_strong_refs.min((*rcbox).strong()) {
             (*rcbox).dec_strong();
         }
